@@ -1034,6 +1034,14 @@ def nesting_cases():
                        "offset": occurrence, "attr": wrapper, "value": depth, "bit": 0}
 
 
+# the repeat counts themselves, with values that are no counts (huge ones are left out: they make any reader build
+# a huge table)
+ODS_REPEAT_ATTRIBUTES = (("table:table-cell", "table:number-columns-repeated"),
+                         ("table:table-row", "table:number-rows-repeated"))
+ODS_REPEAT_VALUES = ("", "x3", "3.0", "-1", "0", "NaN", "\u00b2", "\u2461", "1\u00b2", "\u00bd", "+2", " 2", "2 ", "0x2",
+                     "1_0", "1e1")
+
+
 def attribute_cases():
     for element in ODS_ELEMENTS:
         for occurrence in (0, 1, 5):
@@ -1041,6 +1049,11 @@ def attribute_cases():
                 for value in ODS_ATTRIBUTE_VALUES:
                     yield {"kind": "container", "source": "gen:ods", "fault": "attribute", "element": element,
                            "offset": occurrence, "attr": attribute, "value": value, "bit": 0}
+    for element, attribute in ODS_REPEAT_ATTRIBUTES:
+        for occurrence in (0, 1, 5):
+            for value in ODS_REPEAT_VALUES:
+                yield {"kind": "container", "source": "gen:ods", "fault": "attribute", "element": element,
+                       "offset": occurrence, "attr": attribute, "value": value, "bit": 0}
 
 
 def check_container_case(sub, case):
